@@ -6,6 +6,8 @@ use memchr::memchr;
 use std::error::Error;
 use std::fmt;
 
+const CR: u8 = b'\r';
+
 #[derive(Debug)]
 pub enum ParseError {
     InvalidProtocol,
@@ -107,6 +109,12 @@ fn parse_bulk_str(buf: &[u8]) -> Result<(BulkStrIndex, usize), ParseError> {
         return Err(ParseError::NotEnoughData);
     }
 
+    // The payload must be followed by CR LF.
+    let content_end = consumed + content_size;
+    if buf.get(content_end..content_end + 2) != Some(b"\r\n".as_ref()) {
+        return Err(ParseError::InvalidProtocol);
+    }
+
     let s = DataIndex(consumed, consumed + content_size);
     Ok((BulkStrIndex::Str(s), consumed + content_size + 2))
 }
@@ -127,8 +135,12 @@ fn parse_line(buf: &[u8]) -> Result<(DataIndex, usize), ParseError> {
         return Err(ParseError::InvalidProtocol);
     }
 
+    // The line must end with CR LF.
+    if buf.get(lf_index - 1) != Some(&CR) {
+        return Err(ParseError::InvalidProtocol);
+    }
+
     // s >= 2
-    // Just ignore the CR
     let line = DataIndex(0, lf_index + 1 - 2);
     Ok((line, lf_index + 1))
 }
